@@ -313,8 +313,22 @@ func (x *g) class(cls string, dirs []string, pkg []string, isTestish bool, k int
 		default:
 			m.Annos = []Anno{{Name: "Ignore"}, {Name: "Test"}}
 		}
+		// a test method may carry other annotations as well, before or after @Test / @Ignore
+		switch x.r.Intn(6) {
+		case 0:
+			m.Annos = append(m.Annos, Anno{Name: "SuppressWarnings", Arg: "\"unchecked\""})
+		case 1:
+			m.Annos = append([]Anno{{Name: "Deprecated"}}, m.Annos...)
+		}
 		n := []int{0, 0, 1, 2, 2, 3, 3, 4, 5, 6, 7, 9}[x.r.Intn(12)]
 		m.Body = x.body(n, hs, free)
+		if x.r.Intn(8) == 0 {
+			// a body made of object creations only (no method call at all)
+			m.Body = []Stmt{}
+			for k := 1 + x.r.Intn(3); k > 0; k-- {
+				m.Body = append(m.Body, x.stmtOf(creation([]string{"Calc", "Item", "StringBuilder"}[x.r.Intn(3)])))
+			}
+		}
 		if !allowKnown {
 			// keep the two listed known-finding shapes out of the cases that probe everything else
 			calls, news := invocations(m.Body)
@@ -346,7 +360,7 @@ func gen(seed int64, n int, tier string) []interface{} {
 	for k := 0; k < n; k++ {
 		allowKnown := k%5 == 2 // a minority of cases may contain the listed known-finding shapes
 		free := k%5 == 4       // a minority contains don't-care shapes
-		in := Input{Via: "api", Style: r.Intn(1 << 20), Files: []File{}, Extras: []Extra{}}
+		in := Input{Via: "api", Rel: r.Intn(3) == 0, Style: r.Intn(1 << 20), Files: []File{}, Extras: []Extra{}}
 		if k%7 == 3 {
 			in.Via = "cli"
 		}
